@@ -211,6 +211,10 @@ func (e *Engine) Generate(r *core.Rand, prop string, tier string) core.Trace {
 
 func genOps(r *core.Rand, t *Trace, tier string) {
 	t.LateLookups = r.Chance(1, 3)
+	t.Layered = r.Bool()
+	if r.Chance(1, 4) {
+		t.Shuffle = 1 + r.Uint64()>>1
+	}
 	n := r.Range(1, 12)
 	if r.Chance(1, 3) {
 		n = r.Range(13, 60)
